@@ -1,5 +1,6 @@
 import Driver.Common
 import Canopy.Model.Auth
+import Canopy.Gen.Auth
 /-! Driver for C05. Per case the harness declares the configuration, the relevant slice of the real
 state, the keys, and the symbolic-signature facts (what real keys really signed); every `tx` line is
 then answered by `Auth.applyTx` and rendered exactly like the harness renders the real state diff. -/
@@ -139,7 +140,8 @@ def step (s : St) (line : String) : St × String :=
       let c0 := s.cfg
       let c : Cfg := { net := nat "net", chain := nat "chain", root := nat "root", height := nat "height",
                        legacyOff := (nat "legacyoff" == 1), approve := (nat "approve" == 1), minOrder := nat "minorder",
-                       minStakeV := nat "minstakev", minStakeD := nat "minstaked", fee := c0.fee }
+                       minStakeV := nat "minstakev", minStakeD := nat "minstaked", fee := c0.fee,
+                       requireSigner := Canopy.Gen.Auth.multisigSignerGuardInPlace }
       ({ s with cfg := c }, "ok")
   | "fees" :: toks =>
     match setKinds toks with
